@@ -764,6 +764,13 @@ func checkStart(w *sys.World, i int, st StartCase) {
 	case "server":
 		node := w.Net.Node("st-srv", "10.0.1.1")
 		s := &gortsplib.Server{RTSPAddress: fmt.Sprintf("10.0.1.1:%d", 9000+i), MaxPacketSize: st.Max, WriteQueueSize: st.WQ, Handler: sys.NewHandler(w)}
+		switch st.Proto {
+		case "udp":
+			s.UDPRTPAddress, s.UDPRTCPAddress = "10.0.1.1:8000", "10.0.1.1:8001"
+		case "mcast":
+			s.UDPRTPAddress, s.UDPRTCPAddress = "10.0.1.1:8000", "10.0.1.1:8001"
+			s.MulticastIPRange, s.MulticastRTPPort, s.MulticastRTCPPort = "224.1.0.0/16", 8002, 8003
+		}
 		sys.WireServer(s, node, nil)
 		err = s.Start()
 		if err == nil {
@@ -772,6 +779,17 @@ func checkStart(w *sys.World, i int, st StartCase) {
 	case "client":
 		node := w.Net.Node("st-cli", "10.0.1.2")
 		c := &gortsplib.Client{Scheme: "rtsp", Host: "10.0.1.1:9", MaxPacketSize: st.Max, WriteQueueSize: st.WQ}
+		switch st.Proto {
+		case "udp":
+			p := gortsplib.ProtocolUDP
+			c.Protocol = &p
+		case "tcp":
+			p := gortsplib.ProtocolTCP
+			c.Protocol = &p
+		case "mcast":
+			p := gortsplib.ProtocolUDPMulticast
+			c.Protocol = &p
+		}
 		sys.WireClient(c, node, w.Net, nil)
 		err = c.Start()
 		if err == nil {
